@@ -28,6 +28,8 @@ structure Answer where
   guard : List String := []
   tags : List String := []
 
+def r32F (x : Float) : Float := x.toFloat32.toFloat
+
 def arithKernel (op : String) (dt : DType) : Int → Int → Option Int :=
   fun a b =>
     match op with
@@ -79,6 +81,21 @@ def runBinary (op : String) (A B : DT) : Answer :=
   else if isCmp op && op != "Equal" && !A.dt.isOrd then
     -- gorgonia: "Typeclass mismatch: not a member of Ord"
     { model := .ofErr .gorgonia, spec := { domain := "mayRefuse" }, tags := tags ++ ["not-ord"] }
+  else if isCmp op && isFloat A.dt && (A.fl.isSome || B.fl.isSome) then
+    -- IEEE comparisons (every comparison with a NaN is false)
+    let toF (d : DT) : Tensor Float := match d.fl with | some f => f | none => ⟨d.t.shape, d.t.data.map Float.ofInt⟩
+    let k : Float → Float → Int := fun a b =>
+      let r : Bool := match op with
+        | "Equal" => a == b | "Greater" => a > b | "GreaterOrEqual" => a ≥ b
+        | "Less" => a < b | _ => a ≤ b
+      if r then 1 else 0
+    let model : Outcome := match applyBinary k .multi (toF A) (toF B) with
+      | .ok t => { status := "ok", outs := [some (DT.mk .bool t none)] }
+      | .error e => .ofErr e
+    let spec : SpecOut := match Spec.binary k (toF A) (toF B) with
+      | some t => { domain := "must", outs := some [some (DT.mk .bool t none)] }
+      | none => { domain := "mustRefuse" }
+    { model, spec, tags := tags ++ ["ieee-exact"] }
   else if isCmp op then
     let model : Outcome := match applyBinary (cmpKernel op) .multi A.t B.t with
       | .ok t => { status := "ok", outs := [some (DT.mk .bool t none)] }
@@ -87,6 +104,23 @@ def runBinary (op : String) (A B : DT) : Answer :=
       | some t => { domain := if coreDt A.dt then "must" else "mayRefuse", outs := some [some (DT.mk .bool t none)] }
       | none => { domain := "mustRefuse" }
     { model, spec, tags }
+  else if isFloat A.dt && (A.fl.isSome || B.fl.isSome) then
+    -- IEEE stream: + - * / are correctly rounded (float32 through float64 and one more rounding is the
+    -- correctly rounded float32 result for these four operations), so the comparison is bit for bit
+    let toF (d : DT) : Tensor Float := match d.fl with | some f => f | none => ⟨d.t.shape, d.t.data.map Float.ofInt⟩
+    let rnd : Float → Float := if A.dt == .f32 then r32F else id
+    let k : Float → Float → Float := fun a b =>
+      rnd (match op with | "Add" => a + b | "Sub" => a - b | "Mul" => a * b | _ => a / b)
+    let model : Outcome := match applyBinary k .multi (toF A) (toF B) with
+      | .ok t => { status := "ok", outs := [some (DT.ofFloat A.dt t)] }
+      | .error e => .ofErr e
+    let spec : SpecOut := match Spec.binary k (toF A) (toF B) with
+      | some t => { domain := "must", outs := some [some (DT.ofFloat A.dt t)] }
+      | none => { domain := "mustRefuse" }
+    -- gorgonia's float Div writes +Inf wherever the divisor is 0, whatever the numerator
+    let zeroDiv : Bool := op == "Div" && (toF B).data.any (· == 0.0)
+    { model := if zeroDiv then { status := "unmodelled" } else model, spec, tags := tags ++ ["ieee-exact"],
+      guard := if zeroDiv then ["div.float_zero_divisor"] else [] }
   else
     -- arithmetic; a `none` of the kernel is an integer ÷0 (error in gorgonia) or, for floats, a value
     -- outside the exact regime
